@@ -473,3 +473,49 @@ def transport(c):
     if extra.get('CONTENT_TYPE', 1) is None:
         pass
     _verdict(c, family, out, seen, resp, calls, detail=case)
+
+
+# ------------------------------------------------------------------------------------------ SOAP with attachments
+
+def _mk_multipart(family):
+    @obligation('C10.multipart.%s' % family, targets=['spyne.protocol.soap.soap11:Soap11.create_in_document',
+                                                      'spyne.protocol.soap.mime:collapse_swa',
+                                                      'spyne.protocol.soap.soap11:_parse_xml_string'],
+                bounded="14 multipart/related (SwA) request forms: well-formed ones (with / without charset, XML declaration, "
+                        "attachment) and broken ones (no boundary, wrong boundary, no parts, no root, garbage, nested, "
+                        "attachment without Content-ID, truncated)",
+                desc="a multipart/related SOAP request, well formed or not, ends in a normal response or a Client fault; no "
+                     "exception escapes the WSGI callable")
+    def ob(c):
+        ns = SOAP11_NS if family == 'soap11' else SOAP12_NS
+        envelope = soap_env(ns, '<tns:m>%s</tns:m>' % XML_ARGS)
+        root = b'--B\r\nContent-Type: text/xml; charset=utf-8\r\nContent-ID: <root>\r\n\r\n'
+        att = b'--B\r\nContent-Type: application/octet-stream\r\nContent-Transfer-Encoding: binary\r\nContent-ID: <att1>\r\n\r\nDATA\r\n'
+        ct = 'multipart/related; boundary="B"; type="text/xml"; start="<root>"'
+        cases = {
+            'plain': (ct, root + envelope + b'\r\n--B--\r\n'),
+            'charset_param': (ct + '; charset=utf-8', root + envelope + b'\r\n--B--\r\n'),
+            'xml_declaration': (ct, root + b'<?xml version="1.0" encoding="utf-8"?>' + envelope + b'\r\n--B--\r\n'),
+            'declaration_and_charset': (ct + '; charset=utf-8', root + b'<?xml version="1.0" encoding="utf-8"?>' + envelope +
+                                        b'\r\n--B--\r\n'),
+            'with_attachment': (ct, root + envelope + b'\r\n' + att + b'--B--\r\n'),
+            'attachment_without_content_id': (ct, root + envelope + b'\r\n' + att.replace(b'Content-ID: <att1>\r\n', b'') +
+                                              b'--B--\r\n'),
+            'no_boundary_param': ('multipart/related; type="text/xml"', root + envelope + b'\r\n--B--\r\n'),
+            'wrong_boundary': (ct.replace('"B"', '"OTHER"'), root + envelope + b'\r\n--B--\r\n'),
+            'no_parts': (ct, b'--B--\r\n'),
+            'empty_body': (ct, b''),
+            'no_root_part': (ct.replace('<root>', '<nothing>'), root + envelope + b'\r\n--B--\r\n'),
+            'garbage': (ct, b'\x00\xff--B\r\n\r\n\xfe\xfd--B'),
+            'truncated': (ct, (root + envelope)[:120]),
+            'bogus_charset': (ct + '; charset=no-such-charset', root + envelope + b'\r\n--B--\r\n'),
+        }
+        case = c.choose(sorted(cases), 'case')
+        ctype, body = cases[case]
+        out, seen, resp, calls = _run(c, family, c.choose(['soft', None], 'validator'), 'POST', '/', '', body, ctype)
+        _verdict(c, family, out, seen, resp, calls, detail=case)
+    return ob
+
+
+for _f in ('soap11', 'soap12'):
+    _mk_multipart(_f)
